@@ -2,6 +2,7 @@ import UrcuVerif.Src.QueueLocal
 import UrcuVerif.Src.QueueRefine
 import UrcuVerif.Src.QueueRef
 import UrcuVerif.Src.QueueDeq
+import UrcuVerif.Src.QueueLfqDeq
 /-!
 # Source refinement, component "queues": generated IR of wfcqueue / rculfqueue / urcu_ref ⊑ L2, thread-locally
 
@@ -334,6 +335,24 @@ theorem _cds_lfq_enqueue_rcu_refines (c : Cfg) (fuel : Nat) (priv : Loc → Opti
          (out.ctl = .fuel ∧ ls'.pc = .eLd)) :=
   LfqR.enqueue_refines_env L c fuel _ inp nl n mbv ls (by simp [bindParams, Gen.Src.«_cds_lfq_enqueue_rcu.params»])
     (by simp [bindParams, Gen.Src.«_cds_lfq_enqueue_rcu.params»]) hn hcfg hwt hpc hnode
+
+/-- **`_cds_lfq_dequeue_rcu(q)` – PARTIAL.**  Proved: for the runs that do not fail and in which no load of a
+non-dummy node's `next` word returned NULL (`NoAlloc`: the `enqueue_dummy` path – `malloc`, `make_dummy`, nested enqueue,
+second load – is NOT covered), from L2's `dLdH`, `helpTail = true`, every loop budget and every oracle of NULL / node
+pointers: the labels that the stateful abstraction `absDeq` extracts (`ldHead`, `ldNext` with the plain `dummy` flag,
+`ldTail`, `casTail`, `casHead` with the flag; the `queue_call_rcu` ext has no label) are accepted by the local
+automaton and a returned node / NULL is reached at L2's `idle`.  Assumed on the private view (`Pinv`): `l->dummy` is
+readable for every node and is 1 exactly for `&obj->parent` nodes; a dummy's `q` word is `q`; `q->queue_call_rcu` and
+the configuration word are readable.  Missing for a full statement: the `enqueue_dummy` path and "never fails". -/
+theorem _cds_lfq_dequeue_rcu_refines_partial (c : Cfg) (hc : c.helpTail = true) (fuel : Nat) (priv : Loc → Option Val)
+    (inp : List Val) (fv : Val) (mbv : Int) (ls : LState) (out : Src.Out) (hP : Pinv L fv mbv priv)
+    (hpar : ∀ l a, L.addr l = some a → ∃ d, L.addr (.field l "parent") = some d)
+    (hwt : ∀ v ∈ inp, LfqR.Typed L v) (hpc : ls.pc = .dLdH)
+    (hok : exec fuel Gen.Src.«_cds_lfq_dequeue_rcu»
+      ⟨bindParams Gen.Src.«_cds_lfq_dequeue_rcu.params» [.ptr L.q], priv⟩ inp = .ok out)
+    (hno : NoAlloc out.events) : DeqPost L c ls out out.events :=
+  dequeue_refines_partial_env L c hc fuel _ inp fv mbv ls out
+    (by simp [bindParams, Gen.Src.«_cds_lfq_dequeue_rcu.params»]) hP hpar hwt hpc hok hno
 
 /-- queue = object 0; node `k ≥ 1` = object `k` -/
 def LQ0 : LfqR.Layout where
